@@ -24,6 +24,11 @@ Near-redirections (Malformed.tla NearRedirects / FoldRedirects): error replies w
 under Unicode simple case folding (long s U+017F, Kelvin sign U+212A), in mixed ASCII case, or merely starts with a verb; as the
 reply to a keyed command, to a child of a split MGET (ctx keyed-child), to SCAN, to the proxy's own READONLY / ASKING and to the
 refresher's CLUSTER NODES; for the latter the waiting party is the refresher: it must start another round (counter slots_refresh.total).
+Well-formed requests with adversarial argument bytes (Malformed.tla KeyVecs / NumberVecs / ArityVecs, side client, contexts key |
+number | arity, form "request"): every key over the brace alphabet { } x up to length 4 and longer mixes, the empty key, one-byte keys,
+keys with CR / LF / NUL / 0xff, keys of 1 KiB .. 1 MiB, each routed by itself (GET, SET, HSET), as a child in every position of MGET /
+MSET / DEL / EXISTS and as EVAL's key; SCAN cursors at the boundaries of the node-index / node-cursor encoding and of int64; argument
+counts at and below what the handlers index. One connection per vector, one reply per request or a close; all of them run every time.
 Spec modules owned: spec/redis/Malformed.tla, DecodeStack.tla, BackendFault.tla and their MC_*.cfg.
 This is exploration with a TLA+-generated corpus: the structural partition is exhaustive, the byte strings are not.
 """
@@ -40,7 +45,7 @@ HEAP_LIMIT_MB = 1500     # 512 MiB bulk limit + 1M element array limit, with hea
 QCAP_CODE = 1024         # capacity of client.processingReqs (proc/redis/upstream.go newClient)
 MANDATORY = ["ask-handover-blocked", "ask-handoff-blocked", "ask-queued-blocked", "ask-inflight", "plain-blocked", "plain-inflight"]
 FAULTS = ["eof", "rst", "garbage", "stop", "remove"]
-SHARDS = 4               # harness processes that share the vectors
+SHARDS = 6               # harness processes that share the vectors
 
 
 def run(ctx):
@@ -135,7 +140,9 @@ def drive(ctx, sub, items, rfile, extra_env=None):
         deaths.append((culprit - 1, rc, se))
         skip = culprit
         if len(deaths) > 60:
-            raise kit.Inconclusive("too many crashes")
+            # what was seen so far stands; the caller notices that items are missing
+            ctx.notes.append("%s: more than 60 crashes, stopped after item %d of %d" % (sub, skip, len(items)))
+            break
     recs = [x for x in kit.read_ndjson(rfile) if x.get("id")] if os.path.exists(rfile) else []
     return recs, deaths
 
@@ -149,8 +156,8 @@ def died(rc, se):
 def run_vectors(ctx, vecs):
     if not ctx.thorough:
         # quick tier: every backend-side vector, client side vectors thinned deterministically by the seed; the long
-        # frames and the runs (form "big") are mandatory
-        vecs = [v for i, v in enumerate(vecs) if v["side"] == "backend" or (i + ctx.seed) % 2 == 0 or v["form"] == "big"]
+        # frames, the runs (form "big") and the well-formed requests with adversarial arguments (form "request") are mandatory
+        vecs = [v for i, v in enumerate(vecs) if v["side"] == "backend" or (i + ctx.seed) % 2 == 0 or v["form"] in ("big", "request")]
     # shard k executes the vectors k, k + SHARDS, ...; ids are mapped back to positions in vecs
     with concurrent.futures.ThreadPoolExecutor(max_workers=SHARDS) as tp:
         parts = list(tp.map(lambda k: drive(ctx, "c11-run", vecs[k::SHARDS], os.path.join(ctx.work, "results-%d.ndjson" % k), {"GOMEMLIMIT": "off"}),
@@ -253,12 +260,16 @@ def run_strata(ctx, strata, recs, deaths):
 
 def short(v):
     p = v["payload"]
+    if isinstance(p, dict) and "reqs" in p:
+        return "%s %r: %s" % (p["class"], p["name"][:40], " | ".join(" ".join(a[:40] for a in r) for r in p["reqs"])[:160])
     return p if not isinstance(p, str) else p[:80]
 
 
 def classify(v):
     """stable class name of a vector for signatures"""
     p = v["payload"]
+    if isinstance(p, dict) and "reqs" in p:
+        return "%s-%s" % (p["class"], p["name"].encode("unicode_escape").decode("ascii")[:32])
     if isinstance(p, dict) and p.get("kind") == "repeat":
         return "run-%s-x%d" % (p["name"], p["n"])
     if isinstance(p, dict) and "shape" in p:
